@@ -284,34 +284,30 @@ Inductive wev :=
 | ESend (clk : nat -> N) (line : bytes)   (* a request arrives (already encoded: line ++ "\n") *)
 | EIdle (clk : nat -> N).                 (* one second without a request *)
 
-(* the buffer is kept as the list of encoded requests (oldest first) with its length *)
-Record wl := mkWL { wl_alive : bool; wl_rf : rf; wl_buf : list bytes; wl_len : Z; wl_blocked : bool }.
+(* the buffer is kept as the list of encoded requests (oldest first) with its length.
+   The writer goroutine is started by New with the destination already open and leaves its loop
+   only when the request channel is closed: every request sent is received (Send returns). *)
+Record wl := mkWL { wl_rf : rf; wl_buf : list bytes; wl_len : Z }.
 
+(* None = Write did not return normally *)
 Definition wl_flush (clk : nat -> N) (w : wl) : option wl :=
   match wl_buf w with
   | [] => Some w                       (* io.Copy of an empty buffer performs no Write *)
   | _ => match rf_write (fun i => clk (length (rf_hist (wl_rf w)) + i)%nat) (wl_rf w) (concat (wl_buf w)) with
-         | WOk st _ => Some (mkWL (wl_alive w) st [] 0 (wl_blocked w))
+         | WOk st _ => Some (mkWL st [] 0)
          | _ => None
          end
   end.
 
+(* one turn of the select: the request is received (the sender goes on) and encoded into the
+   buffer, flushed at 500 KiB; or a second passes without request and the buffer is flushed *)
 Definition wl_step (w : wl) (e : wev) : option wl :=
-  if negb (wl_alive w) then
-    (* the goroutine returned when OpenRotateFile failed: nobody receives on the
-       unbuffered request channel, Send blocks for ever *)
-    match e with
-    | ESend _ _ => Some (mkWL false (wl_rf w) (wl_buf w) (wl_len w) true)
-    | EIdle _ => Some w
-    end
-  else if wl_blocked w then Some w
-  else
-    match e with
-    | ESend s line =>
-        let w1 := mkWL true (wl_rf w) (wl_buf w ++ [line]) (wl_len w + zlen line) false in
-        if wl_len w1 <? FLUSH_BYTES then Some w1 else wl_flush s w1
-    | EIdle s => wl_flush s w
-    end.
+  match e with
+  | ESend s line =>
+      let w1 := mkWL (wl_rf w) (wl_buf w ++ [line]) (wl_len w + zlen line) in
+      if wl_len w1 <? FLUSH_BYTES then Some w1 else wl_flush s w1
+  | EIdle s => wl_flush s w
+  end.
 
 Fixpoint wl_run (w : wl) (es : list wev) : option wl :=
   match es with
@@ -319,7 +315,9 @@ Fixpoint wl_run (w : wl) (es : list wev) : option wl :=
   | e :: r => match wl_step w e with Some w' => wl_run w' r | None => None end
   end.
 
-(* New(): MaxSize >= 1024 required; the goroutine opens the destination *)
-Definition wl_new (max : Z) (openable : bool) (s : N) (init : bytes) : wl :=
-  if openable then mkWL true (rf_open max s init) [] 0 false
-  else mkWL false (mkRF max 0 false [] [] [] [] []) [] 0 false.
+(* New(): MaxSize >= 1024 required; the destination is opened here; None = New returned an
+   error and no channel (nothing to Send on) *)
+Definition wl_new (max : Z) (openable : bool) (s : N) (init : bytes) : option wl :=
+  if max <? 1024 then None
+  else if openable then Some (mkWL (rf_open max s init) [] 0)
+  else None.
